@@ -234,6 +234,18 @@ def run(ctx):
              "removes the record stored under target.name (missing record tolerated)", "FileSpecHashes.invalidate does not remove the record of target.name", inv.where)
 
     # ---------------- R5 protection is spelling-insensitive (shared with C03)
+    r6 = ctx.rule("R6", "the clean command evaluated on a witness project: 9 invocations (selection x --all x --force x prompt) remove and forget exactly what the property prescribes")
+    from .evalhelpers import clean_command_witness
+    n_w, diffs, unsup = clean_command_witness(ctx)
+    ccon6 = "src/gwf/plugins/clean.py::clean::witness-project"
+    if unsup is not None and not diffs:
+        r6.info(ccon6, f"not evaluated ({unsup}); the structural rules R1-R4 decide")
+        r6.ok(ccon6 + "::fallback", "decided structurally (R1-R4)", "src/gwf/plugins/clean.py:1")
+    elif diffs:
+        for d in diffs[:3]:
+            r6.violation(ccon6, d, "src/gwf/plugins/clean.py:1")
+    else:
+        r6.ok(ccon6, f"{n_w} invocations agree with the property (files removed, hashes forgotten, prompt, nothing on decline)", "src/gwf/plugins/clean.py:1")
     r5 = ctx.rule("R5", "protected paths and outputs are normalised by the same function on every path")
     from .c03 import rule_norm_path
     rule_norm_path(ctx, r5)
